@@ -18,6 +18,10 @@ Tie (H, three seams, no source hooks; the numba internals of xrspatial/viewshed.
           the driver consume the same operation list; visible sets are compared exactly.
   seam 3  end to end.  Public `viewshed()` against seam 2, plus the output rule.
 
+  wrapper seam   the public function with the two kernels it calls wrapped: observer cell, signed cell sizes, eye
+          elevation, target offset, the event arrays it sorted and split, `data` -- against Model/ViewshedWrapper.lean
+          (`vs_wrap`) and Model/ViewshedEvents.lean exactly, over coordinate / attribute kinds of the DataArray.
+
 Oracle / search: the O(n^2) list reference (for every centre event scan all active cells) against the
 public function; a numba-compiled version of it runs ~10^4 terrains per second in `search`.
 """
@@ -1821,11 +1825,16 @@ def run(r):
     V()
     r.rule = ("terrains 2x2..15x15 (thorough 30x30) over small alphabets / plane+bumps / plateaus / dyadics / ints / flat / "
               "row-relief (tall cells in the lines adjacent to one of the observer's four axis rays), "
-              "dtypes f8 f4 i4 i8, every observer cell incl. corners and edges, observer_elev in {-1,0,1,5}, target_elev in "
-              "{0,2}, square and non-square cells, observer given off-centre; tree sequences: pools 6/12/40 of distinct "
+              "dtypes f8 f4 i8 i4 i2, every observer cell incl. corners and edges, observer_elev in {-1,-0.5,0,0.5,1,5}, target_elev in "
+              "{0,0.5,1,2}, square and non-square cells; DataArray kinds for everything that goes through viewshed(): x / y "
+              "ascending or descending, dyadic steps 0.25..30, origins up to 4.1e6, observer given at a centre / off-centre (nearest "
+              "centre) / clamped to the edge / (wrapper seam only) exactly half way and outside, attrs['res'] absent / consistent / "
+              "STALE (scalar, tuple, list, ndarray; different factors per axis) -- the reference always uses the coordinate "
+              "spacing and the nearest centre; tree sequences: pools 6/12/40 of distinct "
               "keys, gradients from alphabets of 2/3/5 values (ties) or dyadics, queries at bearings all nodes span; "
               "non-trivial = not a flat terrain / any tree sequence")
-    r.trusted += ["numba compilation of viewshed.py == its interpreted source (checked per tree operation)",
+    r.trusted += ["xarray / pandas `sel(method='nearest')` (compared with the model's nearest-centre rule on every wrapper case, ties included)",
+                  "numba compilation of viewshed.py == its interpreted source (checked per tree operation)",
                   "float: IEEE + - * / and comparisons agree between numba and Lean `Float`"]
     r.assumptions += ["seams 1-2 take angles and gradients (atan, sqrt) from the real helper functions; the end-to-end oracle "
                       "recomputes every cell's node from the terrain geometry (atan2, exact cross products) and skips a cell "
